@@ -51,6 +51,9 @@ def v1_ctx(tok_name, cls, variant="std"):
         data = pd.DataFrame([gmx.v1_row(usdg_class, aum_usd=aum + 10_000 * i, supply_glp=supply) for i in range(4)], index=minutes(4))
     finally:
         gmx.V1_PRICE.update(old)
+    # the pool's target weights are data too and change over time: from bar 2 on the traded token's weight is a quarter of what it was
+    col = f"{tok_name}_weight"
+    data[col] = [data[col].iloc[0]] * 2 + [max(int(data[col].iloc[0]) // 4, 1)] * 2
     prices = gmx.v1_prices(data)
     m = gmx.make_v1(data)
     ad = gmx.Gmx1Adapter(m, data)
@@ -170,6 +173,17 @@ def judge_v1(part, tok_name, cls, variant="std", seq_len=3):
         part.count("v1_reward_bars")
         if abs((F(m.reward) - r0) - want_r) > REL * max(want_r, Fraction(1, 10**30)):
             part.violation("C17|v1|reward", "reward of a bar != interval x 60 x held / supply", case, {"got": str(m.reward - dec(r0)), "rule": float(want_r)})
+        # ---- the next bar has other target weights: the fee rule must be evaluated with THAT bar's weights -------------------------------------
+        row2 = ad.row()
+        amt2 = dec(v1_amounts(gmx, row2, tok)["mid"]).quantize(Decimal(1).scaleb(-tok.decimal))
+        wei2 = int(F(amt2) * 10**tok.decimal)
+        usdg2 = wei2 * int(row2[f"{tok_name}_price"]) // gmx.P30 * 10**18 // 10**tok.decimal
+        _, want_bps2 = gmx.v1_mint(row2, tok, F(amt2))
+        got_bps2 = m.get_fee_basis_points(tok, Decimal(usdg2), True)
+        part.count("v1_fee_evaluations")
+        if abs(F(Decimal(got_bps2)) - want_bps2) > 1 or not (0 <= got_bps2 <= 85):
+            part.violation("C17|v1|fee-rule|buy|later-bar", "in a later bar (other target weights) the mint fee differs from the Vault rule for that bar's pool state", case,
+                           {"got": float(got_bps2), "rule": want_bps2, "weights": {t.name: int(row2[f"{t.name.lower()}_weight"]) for t in gmx.V1_TOKENS}})
         part.sample(case, every=11)
         ctx.restore(base_snap)
     # ---- all buy / sell sequences with this token up to seq_len, closed by selling everything: never more out than in -------------------
